@@ -22,6 +22,7 @@ UStr = z3.DeclareSort('PyStr')
 U8ENC = z3.Function('utf8_encode', UStr, BytesSort)
 U8DEC = z3.Function('utf8_decode', BytesSort, UStr)
 U8OK = z3.Function('utf8_valid', BytesSort, z3.BoolSort())
+CHARLEN = z3.Function('str_len', UStr, z3.IntSort())
 
 
 def str_encode_hook(ip, s, enc, errors):
@@ -33,6 +34,8 @@ def str_encode_hook(ip, s, enc, errors):
     ip.ctx.assume(z3.And(U8DEC(r) == s.t, U8OK(r)))
     n = ip.ctx.fresh('utf8_len', z3.IntSort())
     ip.ctx.assume(n >= 0)
+    # utf-8: one to four bytes per character
+    ip.ctx.assume(z3.And(CHARLEN(s.t) >= 0, CHARLEN(s.t) <= n, n <= 4 * CHARLEN(s.t)))
     ops.set_len_term(r, n)
     return Sym(r, 'bytes')
 
@@ -49,7 +52,14 @@ def bytes_decode_hook(ip, b, enc, errors):
     return Sym(U8DEC(t), 'str')
 
 
-STR_HOOKS = {'str.encode': str_encode_hook, 'bytes.decode': bytes_decode_hook}
+def str_len_hook(ip, s):
+    """len() of an opaque string: its number of characters (an uninterpreted measure, tied to the utf-8 length at encode)"""
+    t = CHARLEN(s.t)
+    ip.ctx.assume(t >= 0)
+    return Sym(t, 'int')
+
+
+STR_HOOKS = {'str.encode': str_encode_hook, 'bytes.decode': bytes_decode_hook, 'str.len': str_len_hook}
 
 
 def ostr(E, name):
@@ -143,7 +153,10 @@ for _k, _mk in (('str', lambda E: ostr(E, 'v')), ('bytes', lambda E: E.bytes('v'
 
 def encoded_len(value):
     if isinstance(value, Sym) and value.ty == 'str':
-        return Sym(ops.blen(U8ENC(value.t)), 'int')
+        t = U8ENC(value.t)
+        # utf-8: one to four bytes per character (the codec contract's own fact, instantiated for the specification term)
+        ops.XOR8_FACTS.append((t, z3.And(CHARLEN(value.t) >= 0, CHARLEN(value.t) <= ops.blen(t), ops.blen(t) <= 4 * CHARLEN(value.t))))
+        return Sym(ops.blen(t), 'int')
     return S.len(value)
 
 
